@@ -117,15 +117,33 @@ fn orders(r: usize) -> (Vec<Vec<usize>>, bool) {
                 let mut p = id.clone();
                 p.swap(a, b);
                 set.insert(p.clone());
-                for c in 0..r {
-                    for d in (c + 1)..r {
-                        let mut q = p.clone();
-                        q.swap(c, d);
-                        set.insert(q);
+                // a second transposition only while the menu stays small (r <= 12: at most 66^2 orders)
+                if r <= 12 {
+                    for c in 0..r {
+                        for d in (c + 1)..r {
+                            let mut q = p.clone();
+                            q.swap(c, d);
+                            set.insert(q);
+                        }
                     }
                 }
             }
         }
+        // interleavings: even positions first, odd positions first, outside-in
+        let mut ev: Vec<usize> = (0..r).filter(|i| i % 2 == 0).collect();
+        ev.extend((0..r).filter(|i| i % 2 == 1));
+        set.insert(ev);
+        let mut od: Vec<usize> = (0..r).filter(|i| i % 2 == 1).collect();
+        od.extend((0..r).filter(|i| i % 2 == 0));
+        set.insert(od);
+        let mut oi = vec![];
+        for k in 0..r.div_ceil(2) {
+            oi.push(k);
+            if r - 1 - k != k {
+                oi.push(r - 1 - k);
+            }
+        }
+        set.insert(oi);
         // plus the reversal and the rotations of the identity
         let mut rev = id.clone();
         rev.reverse();
@@ -176,10 +194,10 @@ fn explore_clip(e: &mut Eval, st: &State, case: &str, extra: &[(&str, String)], 
     // reference clip
     let mut refc = base.clone();
     if let Err(p) = guarded(|| refc.clip_by_neighbour_unconditional(ngb, shift)) {
-        // a panic in the unpermuted clip belongs to C05 (R5 class); not judged here
-        e.count("reference_clip_panics(R5 class, judged by C05)", 1);
-        let _ = p;
-        return (0, true, 0);
+        // the unpermuted clip of a reachable cell must succeed as well (no enumerated state is in the R5 class of
+        // C05: that class is near-degenerate input, these are exact lattices and general-position sets)
+        e.issue(format!("panic-in-reference-clip:{}", p.msg.chars().take(60).collect::<String>()), case, format!("the clip in the builder's own storage order panicked: {} ({})", p.msg, p.site), rp());
+        return (1, true, 0);
     }
     let before: Vec<[usize; 3]> = base.cell.vertices.iter().map(|v| norm_triple(v.dual)).collect();
     let after = canonical(&refc);
@@ -357,6 +375,12 @@ pub fn eval_c18(item: &(State, Vec<DVec3>)) -> Eval {
     }
     e.sig = h.finish();
     e.nontrivial = max_r >= 2;
+    if max_r >= 33 {
+        e.count("states_with_a_removed_set_of_33+_vertices", 1);
+    }
+    if max_r >= 17 {
+        e.count("states_with_a_removed_set_of_17+_vertices", 1);
+    }
     e
 }
 
@@ -564,7 +588,7 @@ pub fn eval_disk(d: &Disk) -> Eval {
 pub fn run_c18(run: &mut Run) {
     let thorough = run.thorough();
     THOROUGH.store(thorough, std::sync::atomic::Ordering::Relaxed);
-    run.rule = "cells = every intermediate and final cell the builder reaches (rebuilt clip by clip through the hook wrapper) for the 3D lattice/generic states; planes = the builder's next neighbour and the bisector towards every unused alphabet point; per (cell, plane): all |R|! storage orders of the removed vertices (|R| <= 6 quick / 7 thorough; deviation-bounded orders above: <= 2 transpositions, reversal, rotations) x all 3^|R| rotations of their plane triples (|R| <= 3 quick / 4 thorough; 3 resp. 5 rotation patterns above) x up to 3 arrangements of the kept vertices; a removed-vertex configuration (plane triples + new plane index) is enumerated completely once per run and re-clipped for two orders at every further occurrence (the reconstruction is purely combinatorial); oracle = canonical form (cyclically normalised plane triples) and volume equal to the unpermuted clip, closedness, Euler. Companion: the real boundary cycle driven by the builder's greedy loop over every order of every triangulated disk with <= 6 (quick) / 7 (thorough) triangles: never stuck, always the disk's boundary. non-trivial = at least 2 removed vertices".to_string();
+    run.rule = "cells = every intermediate and final cell the builder reaches (rebuilt clip by clip through the hook wrapper) for the 3D lattice/generic states; planes = the builder's next neighbour and the bisector towards every unused alphabet point; per (cell, plane): all |R|! storage orders of the removed vertices (|R| <= 6 quick / 7 thorough; deviation-bounded orders above: <= 2 transpositions (1 for |R| > 12), reversal, rotations, three interleavings) x all 3^|R| rotations of their plane triples (|R| <= 3 quick / 4 thorough; 3 resp. 5 rotation patterns above) x up to 3 arrangements of the kept vertices; a removed-vertex configuration (plane triples + new plane index) is enumerated completely once per run and re-clipped for two orders at every further occurrence (the reconstruction is purely combinatorial); oracle = canonical form (cyclically normalised plane triples) and volume equal to the unpermuted clip, closedness, Euler. Companion: the real boundary cycle driven by the builder's greedy loop over every order of every triangulated disk with <= 6 (quick) / 7 (thorough) triangles: never stuck, always the disk's boundary. non-trivial = at least 2 removed vertices".to_string();
     // part A
     let boxes = box_menu(false);
     for periodic in [false, true] {
@@ -621,6 +645,17 @@ pub fn run_c18(run: &mut Run) {
             items.push((st, vec![]));
         }
         run.family("centre generator inside a shell of N generators (cells with more than 64 clipping planes), builder's own clip sequence".to_string(), items.len() as u64);
+        run.explore(&items, eval_c18, |i| J::s(i.0.id.clone()));
+    }
+    // large removed sets: an m-sided prism whose m top vertices are all removed by one clip (and the axis pair whose
+    // shared face has m vertices): builder's own clip sequence, deviation-bounded storage orders
+    {
+        let mut items: Vec<(State, Vec<DVec3>)> = vec![];
+        for m in if thorough { vec![5usize, 8, 12, 16, 17, 24, 31, 32, 33, 40, 64, 65, 72] } else { vec![8usize, 17, 33, 40] } {
+            items.push((bigcell_state("prism", m, &boxes[0]), vec![]));
+            items.push((bigcell_state("axis", m, &boxes[0]), vec![]));
+        }
+        run.family("m-sided prism + neighbour above (one clip removes m vertices) and axis pair + ring of m (face with m vertices), builder's own clip sequence".to_string(), items.len() as u64);
         run.explore(&items, eval_c18, |i| J::s(i.0.id.clone()));
     }
     // part B
